@@ -102,6 +102,9 @@ Section MatRing.
     let '(a0, a1, a2) := a in let '(b0, b1, b2) := b in (a0 - b0, a1 - b1, a2 - b2).
   Definition vscale (k : R) (a : vec3) : vec3 :=
     let '(a0, a1, a2) := a in (k * a0, k * a1, k * a2).
+  (* numpy: vec / k, componentwise with a division supplied by the instance *)
+  Definition vdivs (rdiv : R -> R -> R) (a : vec3) (k : R) : vec3 :=
+    let '(a0, a1, a2) := a in (rdiv a0 k, rdiv a1 k, rdiv a2 k).
   Definition vdot (a b : vec3) : R :=
     let '(a0, a1, a2) := a in let '(b0, b1, b2) := b in a0 * b0 + a1 * b1 + a2 * b2.
   (* numpy.cross *)
@@ -135,7 +138,7 @@ Section MatRing.
   (* ---- algebra *)
   Ltac mred := cbv [mmul mid mzero mtrans mapply mget mset m00 m01 m02 m03 m10 m11 m12 m13 m20 m21 m22 m23
                     m30 m31 m32 m33 point direction xyz lin_apply translation mcol3 mrow3 vadd vsub vscale
-                    vdot vcross affine] in *.
+                    vdivs vdot vcross affine] in *.
   Ltac vec_eq := repeat match goal with |- (_, _) = (_, _) => apply f_equal2 end.
   Lemma mat_ext : forall A B : mat,
     m00 A = m00 B -> m01 A = m01 B -> m02 A = m02 B -> m03 A = m03 B ->
@@ -221,7 +224,7 @@ Arguments mid {R}. Arguments mzero {R}. Arguments mmul {R}. Arguments mtrans {R}
 Arguments mapply {R}. Arguments mget {R}. Arguments mset {R}.
 Arguments mat_to_list {R}. Arguments mat_of_list {R}.
 Arguments vadd {R}. Arguments vsub {R}. Arguments vscale {R}. Arguments vdot {R}.
-Arguments vcross {R}. Arguments vnth {R}. Arguments point {R}. Arguments direction {R}.
+Arguments vdivs {R}. Arguments vcross {R}. Arguments vnth {R}. Arguments point {R}. Arguments direction {R}.
 Arguments xyz {R}. Arguments lin_apply {R}. Arguments mcol3 {R}. Arguments mrow3 {R}.
 Arguments translation {R}. Arguments det3 {R}. Arguments trace3 {R}. Arguments affine {R}.
 Arguments mprod {R}.
